@@ -129,9 +129,26 @@ def rand_rect_in(pl, pc, kind=None):
     return [t, l, n, k]
 
 
+def expose_instr(h, w):
+    """tickit_window_expose from inside a handler: own window (overlapping / contained / adjacent to the handed
+    rectangle) or any other live window."""
+    stats["handler_exposes"] = stats.get("handler_exposes", 0) + 1
+    x = rng.random()
+    if x < 0.5:
+        return "z:%d:%d:%d:%d" % (rng.choice([-1, 0, 0, 1, 2]), rng.choice([-2, 0, 0, 1, 3]), rng.choice([-1, 0, 0, 1]), rng.choice([-2, 0, 0, 1]))
+    live = h.live()
+    tgt = rng.choice(live) if live else w
+    if x < 0.7:
+        return "Z:%d" % tgt
+    n, k = h.rect.get(tgt, [0, 0, 1, 1])[2:]
+    return "Z:%d:%d:%d:%d:%d" % (tgt, rng.randint(-1, max(0, n)), rng.randint(-1, max(0, k)), rng.randint(1, max(1, n)), rng.randint(1, max(1, k)))
+
+
 def adversarial_prog(h, w):
     n, k = h.rect[w][2], h.rect[w][3]
     ins = []
+    if rng.random() < 0.15:
+        ins.append(expose_instr(h, w))
     for _ in range(rng.randint(1, 5)):
         x = rng.random()
         far = lambda: rng.choice([-1000, -7, -2, -1, 0, 1, 2, n - 1, n, n + 1, k - 1, k, k + 1, 40, 1000])
@@ -191,6 +208,9 @@ def new_window(h, parent=None, rect=None, flags=None):
     h.parent[id_] = parent; h.rect[id_] = rect; h.n += 1
     if C02 and rng.random() < 0.85:
         emit("beh %d %s" % (id_, adversarial_prog(h, id_)))
+    elif not C02 and rng.random() < 0.15:
+        # well-behaved, but the handler also exposes: that damage is for the next flush
+        emit("beh %d P %s" % (id_, " ".join(expose_instr(h, id_) for _ in range(rng.randint(1, 2)))))
     return id_
 
 
@@ -203,6 +223,8 @@ def history(h_index, big):
     h.parent[0] = None; h.rect[0] = [0, 0, tl, tc]; h.n = 1
     if C02 and rng.random() < 0.6:
         emit("beh 0 %s" % adversarial_prog(h, 0))
+    elif not C02 and rng.random() < 0.1:
+        emit("beh 0 P %s" % expose_instr(h, 0))
     nwin = rng.choice([0, 1, 2, 3, 3, 4, 5, 7])
     for _ in range(nwin):
         new_window(h)
